@@ -76,7 +76,8 @@ def _float_case(call):
     close = call.get("close")
     if close:      # elevations closer together than float32 can resolve (round-2 seed: a narrowing cast in from_dem)
         if dt == "float64":
-            vals = np.array([1000.0 + rng.randint(0, 40) * 1e-7 for _ in range(n)], dtype=dt)
+            stepz = rng.choice([1e-7, 1e-10, 3e-11])      # depressions far shallower than any rounding a kernel might apply (round-6 seed)
+            vals = np.array([1000.0 + rng.randint(0, 40) * stepz for _ in range(n)], dtype=dt)
         elif dt == "int32":
             vals = np.array([20000000 + rng.randint(0, 12) for _ in range(n)], dtype=dt)
     nod = [rng.random() < call["pn"] for _ in range(n)]
